@@ -51,6 +51,7 @@ RULE = ("nm: test x estimator/bet configs of group nm with finite N <= 60 (quick
         "(math.ceil of the float sum may differ by one). non-trivial = not a "
         "constant pilot, not a single interleaved value; distinct = distinct canonical input")
 EXHAUSTIVE = {"quick": False, "thorough": False}
+RULE += "; option stream (n/10 more cases, own generator, OPTIONS_AUDIT.md): optional arguments of NonnegMean.sample_size / Assertion.find_sample_size / interleave_values / sample_estimator.sample_size that hold their documented defaults left out of the call, pilot sample as a Python list"
 
 S = NMG.S
 _CACHE = {}
